@@ -27,7 +27,8 @@ Tup3(q) == <<q[1], q[2], q[3]>>
 MkData(e) == [n \in {"D"} \cup SToSet(e.graphs) \cup {e.quads[i][4] : i \in 1..Len(e.quads)} |->
                 {Tup3(e.quads[i]) : i \in {j \in 1..Len(e.quads) : e.quads[j][4] = n}}]
 
-Ctx(s, cf) == [D |-> s.D, active |-> IF cf.union_default THEN DUnion(s.D) ELSE DGet(s.D, "D"), ord |-> cf.ord]
+Ctx(s, cf) == [D |-> s.D, active |-> IF cf.union_default THEN DUnion(s.D) ELSE DGet(s.D, "D"), ord |-> cf.ord,
+               dev |-> "KF_C04_pushdown" \in Devs]
 
 (* ---- sub-bags and slices ----------------------------------------------------------- *)
 SubBag(R, Om) == \A x \in SToSet(R) : Count(R, x) <= Count(Om, x)
@@ -102,7 +103,9 @@ QueryVerdict(q0, e, c) ==
            off  == IF Has(q, "offset") THEN q.offset ELSE 0
            lim  == IF Has(q, "limit") THEN q.limit ELSE 0 - 1
        IN IF q.proj # <<"*">> /\ r.vars # q.proj THEN "ProjectOK"
-          ELSE IF q.proj = <<"*">> /\ SToSet(r.vars) # ex.vars THEN "ProjectOK"
+          \* SELECT *: every in-scope variable must be listed (rdflib also lists variables that only occur in FILTER / MINUS /
+          \* EXISTS, which are never bound; the property speaks of the bindings, so that is not judged)
+          ELSE IF q.proj = <<"*">> /\ ~(ex.vars \subseteq SToSet(r.vars)) THEN "ProjectOK"
           ELSE IF \E i \in 1..Len(r.rows) : ~(DOMAIN r.rows[i] \subseteq ex.vars) THEN "ProjectOK"
           ELSE IF Has(q, "reduced") /\ q.reduced
                THEN (IF SToSet(r.rows) = SToSet(ex.rows) /\ SubBag(r.rows, ex.rows) THEN "ok" ELSE "ReducedOK")
